@@ -42,6 +42,18 @@ def make(loop, sid, major, with_subscriber=False):
 
     s = S()
     s.transport = FakeTransport(loop, sockname=("192.0.2.1", 30501))
+
+    class Backend:
+        """method 4 is served by an object of its own; the service's method table is the only thing that refers to it"""
+
+        def __init__(self, calls):
+            self.calls = calls
+
+        def handle(self, msg, addr):
+            self.calls.append((4, msg, addr))
+            return b"R" + msg.payload[:4]
+
+    s.register_method(4, Backend(s.calls).handle)
     if with_subscriber:
         # the caller is also a subscriber of one of the service's eventgroups (its notifications go to the address the
         # calls come from)
@@ -68,7 +80,7 @@ def expected(own_sid, own_major, f, multicast):
         return (0x81, E_UNKNOWN_SERVICE, b""), None
     if iface != own_major:
         return (0x81, E_WRONG_IFACE, b""), None
-    if method not in (1, 2, 3):
+    if method not in (1, 2, 3, 4):
         return (0x81, E_UNKNOWN_METHOD, b""), None
     if mtype not in (0x00, 0x01):
         return (0x81, E_WRONG_TYPE, b""), None
@@ -76,8 +88,8 @@ def expected(own_sid, own_major, f, multicast):
         return (0x81, E_WRONG_TYPE, b""), None
     if method == 3:
         return (0x81, E_MALFORMED, b""), 3
-    if method == 1 and mtype == 0x00:
-        return (0x80, 0, b"R" + pl[:4]), 1
+    if method in (1, 4) and mtype == 0x00:
+        return (0x80, 0, b"R" + pl[:4]), method
     return None, method
 
 
@@ -152,7 +164,7 @@ def part(args):
     try:
         s = make(loop, own_sid, own_major)
         ifaces = (own_major, (own_major + 1) & 0xFF)
-        methods = (1, 2, 3, 0x7777, 0x8001) if ctx_thorough else (1, 2, 3, 0x7777)
+        methods = (1, 2, 3, 4, 0x7777, 0x8001) if ctx_thorough else (1, 2, 3, 4, 0x7777)
         ids = (0, 1, 0xFFFF, 0x1234 + seed % 1000) if ctx_thorough else (0, 1, 0xFFFF)
         pls = (b"", b"\x01", bytes(range(256)) + bytes(44))
         for iface, method, mtype, code, client, session, pl, multicast in itertools.product(
@@ -230,7 +242,7 @@ def part_sequences(args):
     n = 0
     try:
         alphabet = []
-        for method in (1, 2, 3):
+        for method in (1, 2, 3, 4):
             for mtype in (0x00, 0x01):
                 alphabet.append(((own_sid, method, 0x10 + method, 0x20 + mtype, own_major, mtype, 0, b"ab"), False))
         alphabet += [((own_sid, 1, 1, 2, own_major, 0x00, 0, b"mc"), True), ((own_sid, 2, 1, 2, own_major, 0x01, 0, b"mc"), True),
